@@ -42,6 +42,14 @@ PLAN = {
     ],
     "C13": [part("cli", "TestC13", (40, 2000), (16, 16), steps=25)],
     "C14": [part("cli", "TestC14", (30, 600), (16, 16), steps={Q: 25, T: 60})],
+    "C15": [
+        part("cli", "TestC15Corpus", (1, 1), (16, 16), shim=True),
+        part("cli", "TestC15Random", (6, 200), (16, 16), shim=True, tiers=(T,)),
+    ],
+    "C16": [
+        part("cli", "TestC16Corpus", (1, 1), (16, 16), shim=True),
+        part("cli", "TestC16Random", (6, 200), (16, 16), shim=True, tiers=(T,)),
+    ],
     "C17": [part("cli", "TestC17", (40, 2000), (16, 16), steps=30)],
     "C18": [part("cli", "TestC18", (50, 3000), (16, 16), steps={Q: 30, T: 40})],
     "C19": [
@@ -94,6 +102,15 @@ RULES = {
            "non-empty, or an identical-rewrite / touch step; distinct by (index, tree shape, ignore list).",
     "C14": "Scenario machine (profile log). Non-trivial = chain length >= 3 with explicit -n, or a history containing "
            "a reset; distinct by (length, k, has-reset, branch count).",
+    "C15": "Corpus of 11 hand-picked states x the modifying commands that apply (49 pairs): fault-free run under the "
+           "instrumented binary counts N modifications, then every k in 1..N is a kill point (SIGKILL before the k-th "
+           "create/write/mkdir/rename/remove); thorough adds rapid-generated histories with up to 48 points each. One "
+           "evaluation = one kill point. Non-trivial/distinct = (command kind, state class, file class and kind of the "
+           "interrupted operation).",
+    "C16": "Same corpus: fault-free run counts M faultable operations (create, open, read, readdir, write, mkdir, rename, "
+           "remove; never stat), then for every k in 1..M the k-th fails (errno by k mod 4: EIO, ENOSPC+short write, "
+           "EACCES, ENOSPC). One evaluation = one injected fault that fired. Non-trivial/distinct = (command kind, file "
+           "class and kind of the failed operation).",
     "C17": "Scenario machine (profile ignore). Non-trivial = add of '.' or of a directory containing at least one "
            "ignored/.goit path and at least one ordinary path; distinct by (tree shape, ignore list, arguments).",
     "C18": "Grammar over 19 sub-commands x flags x argument classes; one evaluation = one scenario of ~30 command "
@@ -109,6 +126,9 @@ RULES = {
 }
 
 ASSUMPTIONS = {
+    "C15": ["kills are injected between file-system calls of Goit's own source (instrumented scratch copy); torn single writes and loss of unsynced data are out of reach",
+            "third-party packages (cobra, color) are not instrumented: they perform no repository I/O"],
+    "C16": ["faults are injected into file-system calls of Goit's own source (instrumented scratch copy); Close and stat are not in the fault domain"],
     "*": [
         "trusted base: Go stdlib compress/zlib and crypto/sha1, the independent decoders in harness/core/gitfmt, "
         "the OS file system, pgregory.net/rapid v1.3.0",
